@@ -159,11 +159,6 @@ func randomPlan(rng *rand.Rand, s []byte, k int, marks []int) plan {
 	return pl
 }
 
-// replayPlan is used when a stored sequence is run again: the deterministic part of randomPlan.
-func replayPlan(s []byte, k int) plan {
-	return randomPlan(rand.New(rand.NewSource(1)), s, k, nil)
-}
-
 // Random logs the battery for n random sequences (k in 4..10, MinKmerLen as shipped), preceded by
 // the argument checks of New.
 func Random(w *vt.W, seed int64, n int, big bool) {
@@ -184,12 +179,23 @@ func Random(w *vt.W, seed int64, n int, big bool) {
 	if big {
 		maxn = 7
 	}
+	cnt := 0
+	plan4 := func(l int) plan {
+		pl := tinyPlan(l, 4)
+		if cnt++; cnt%16 == 0 { // every 16th case: look up all 4^k words one by one
+			pl.kmers = pl.kmers[:0]
+			for km := 0; km <= pow4(4); km++ {
+				pl.kmers = append(pl.kmers, km)
+			}
+		}
+		return pl
+	}
 	for l := 5; l <= maxn; l++ {
 		s := make([]byte, l)
 		var rec func(i int)
 		rec = func(i int) {
 			if i == l {
-				w.Emit(Case(s, 4, 4, tinyPlan(l, 4)))
+				w.Emit(Case(s, 4, 4, plan4(l)))
 				return
 			}
 			for _, c := range []byte("acgtn") {
@@ -203,7 +209,7 @@ func Random(w *vt.W, seed int64, n int, big bool) {
 				for i := range s {
 					s[i] = "acgtnA"[rng.Intn(6)]
 				}
-				w.Emit(Case(s, 4, 4, tinyPlan(l, 4)))
+				w.Emit(Case(s, 4, 4, plan4(l)))
 			}
 			continue
 		}
@@ -217,13 +223,19 @@ func Random(w *vt.W, seed int64, n int, big bool) {
 			l = k + 1 + rng.Intn(60)
 		case r < 16:
 			l = 60 + rng.Intn(341)
-		case r < 19 || !big:
+		case r < 19:
 			l = 401 + rng.Intn(1600)
 		default:
 			l = 2000 + rng.Intn(3001)
 		}
 		s, marks := genSeq(rng, l, k)
-		w.Emit(Case(s, k, 4, randomPlan(rng, s, k, marks)))
+		pl := randomPlan(rng, s, k, marks)
+		if i%40 == 7 && k <= 6 { // all 4^k words one by one
+			for km := 0; km < pow4(k); km++ {
+				pl.kmers = append(pl.kmers, km)
+			}
+		}
+		w.Emit(Case(s, k, 4, pl))
 	}
 }
 
